@@ -45,15 +45,19 @@ Reset ==
                   f |-> 0, lower |-> 0, batch0 |-> 0, ctx |-> "loop", eff |-> 0, c |-> 0, prog0 |-> 0,
                   k |-> 0, reason |-> "none", atx |-> -1, ret |-> "none", npc |-> "none"]]
 
+SKind(k) == CASE RefKind(k) = "ok" -> "executed" [] RefKind(k) = "invalid" -> "skipped" [] OTHER -> "error"
 (* version strings of the events: "st" | "<tx>.<inc>" *)
 VerStr(v) == IF v.k = "mv" THEN ToString(v.tx) \o "." \o ToString(v.inc) ELSE "st"
 KindOf(r) == IF r.ok THEN "ok" ELSE IF r.error = "invalid" THEN "invalid" ELSE "fatal"
 
 TraceNext ==
   \/ Reset
-  \/ Has("M_Path") /\ M_Start /\ R.sequential = FALSE
+  \/ Has("M_Path") /\ (IF R.sequential THEN M_StartSeq ELSE M_Start)
   \/ Has("M_Post") /\ M_Join /\ R.aborted = abort /\ R.committed = comIdx
-  \/ Has("S_Tx") /\ S_Tx /\ R.tx = loc["main"].k
+  \/ Has("S_Tx") /\ S_Tx /\ R.tx = loc["main"].k /\ loc["main"].k < N /\ R.kind = SKind(loc["main"].k)
+  \* what execute() returned to its caller (recorded by the harness at the public call's return)
+  \/ Has("M_Ret") /\ (IF pc["main"] = "s_tx" THEN S_Tx /\ loc["main"].k >= N ELSE UNCHANGED vars /\ pc["main"] = "done")
+       /\ R.ok = (returned' = "ok") /\ R.outcomes = Len(outcomes') /\ (R.ok \/ R.err_tx = loc'["main"].k)
   \/ Has("N_Register") /\ (IF T = "fin" THEN N_RegisterFin ELSE N_RegisterCom)
   \/ Has("N_Park") /\ (IF T = "fin" THEN N_ParkFin ELSE N_ParkCom)
   \/ Has("N_Notify") /\ N_Notify(T) /\ R.slot = NSlot(T) /\ R.registered = slot[NSlot(T)].reg
